@@ -469,14 +469,16 @@ def render_dependencies(content: TContent, type: RenderType = "document") -> TCo
     # then try to insert the JS scripts at the end of <body> and CSS sheets at the end
     # of <head>
     if type == "document" and (not did_find_js_placeholder or not did_find_css_placeholder):
+        # NOTE: The content may be bytes in any encoding (e.g. a response passing through the middleware),
+        #       so bytes that are not valid UTF-8 are carried through the str form and restored when encoding back.
         maybe_transformed = _insert_js_css_to_default_locations(
-            content_.decode(),
+            content_.decode("utf-8", errors="surrogateescape"),
             css_content=None if did_find_css_placeholder else css_dependencies.decode(),
             js_content=None if did_find_js_placeholder else js_dependencies.decode(),
         )
 
         if maybe_transformed is not None:
-            content_ = maybe_transformed.encode()
+            content_ = maybe_transformed.encode("utf-8", errors="surrogateescape")
 
     # In case of a fragment, we only append the JS (actually JSON) to trigger the call of dependency-manager
     if type == "fragment":
